@@ -2,7 +2,7 @@
 
 Decided: (rotation) for every cell of a configuration lattice, the operator
 folded with a symbolic target (Z, A) equals, entry by entry and order key by
-order key, the proton operator with the rows of d/u (and dbar/ubar) mixed by
+order key, the unrotated operator (rotation step switched off) with the rows of d/u (and dbar/ubar) mixed by
 [[Z, A-Z],[A-Z, Z]]/A and every other row unchanged - for all Z, A, weights and
 convolution values at once (this includes the ownership clause: a weights dict
 shared by several kernels is rotated more than once and breaks the identity);
@@ -67,8 +67,13 @@ def _check_cell(kw):
 
     proj = model.project()
     Z, Aa = A.sym("Ztarget", True), A.sym("Atarget", True)
+    def no_isospin(ev, runner):
+        # reference: the same run with the rotation step switched off
+        ev.summaries["yadism.coefficient_functions::Combiner.apply_isospin"] = lambda ev_, *a, **k: None
+
     try:
-        op_p = O.fold_op(proj, R.Cell(target="proton", **kw))
+        op_p = O.fold_op(proj, R.Cell(target="proton", **kw), prepare=no_isospin)
+        op_proton = O.fold_op(proj, R.Cell(target="proton", **kw))
         op_t = O.fold_op(proj, R.Cell(target={"Z": Z, "A": Aa}, **kw))
     except O.FoldFailure as f:
         return ("fold", f.outcome.status, f"{f.outcome.etype} {f.outcome.msg}", f.outcome.site, f.outcome.construct)
@@ -89,6 +94,9 @@ def _check_cell(kw):
                     exp = op_p.entry(key, pid, j)
                 if not O.same(got, exp):
                     bad.append((key, pid, j, O.diff_text(got, exp)))
+                # the proton itself is the identity rotation
+                if not O.same(op_proton.entry(key, pid, j), op_p.entry(key, pid, j)):
+                    bad.append((key, pid, j, "proton target differs from the unrotated operator: " + O.diff_text(op_proton.entry(key, pid, j), op_p.entry(key, pid, j))))
     return ("ok" if not bad else "bad", n, bad[:3], len(bad), None)
 
 
